@@ -149,11 +149,11 @@ class HTTPFile(io.IOBase):
 
     def read(self, size=-1, /):
         """Cache-supported read operation (file object)"""
+        if size is None or size < 0:
+            # read until the end of the file
+            size = max(self.length - self._pos, 0)
         data = self.read_range_cached(self._pos, self._pos + size)
-        if size > 0:
-            self._pos += size
-        else:
-            self._pos = self.length
+        self._pos += len(data)
         return data
 
     def read_range_cached(self, start, stop):
@@ -162,7 +162,11 @@ class HTTPFile(io.IOBase):
         This calls `get_cache_chunk` and thus downloads cache
         chunks when necessary.
         """
+        # never read beyond the end of the file
+        stop = min(stop, self.length)
         toread = stop - start
+        if toread <= 0:
+            return b""
         # compute the chunk indices between start and stop
         chunk_start = np.int64(start // self._chunk_size)
         chunk_stop = np.int64(stop // self._chunk_size + 1)
